@@ -16,6 +16,7 @@ def dispatch (j : Json) : Except String Json := do
   | "trace" => handleTrace op j
   | "filter" => handleFilter op j
   | "table" => handleTable op j
+  | "ini" => handleIni op j
   | _ => throw s!"unknown model {m}"
 
 def step (line : String) : String :=
